@@ -177,6 +177,91 @@ def seed_all_bytes(chk):
     oblig.run_obligations(chk, obs)
 
 
+def seq_encoding(chk):
+    """The 64-bit record sequence number enters the MAC / AEAD input -- and, for the AEAD modes, the nonce -- whole and big-endian
+    (RFC 5246 6.2.3, RFC 5288 3, RFC 6655 3, RFC 7905 2).  Decided by constant propagation: the load of cc->seq is pinned to
+    0x0102030405060708 and, after `opt -O2`, the bytes written to the local header / nonce buffers (or to the explicit-nonce slot of
+    the record) must be the constants 01..08 at the positions the RFCs give.  A nonce or MAC input that drops or folds bits of the
+    sequence number repeats within one key."""
+    R = 'sequence-number-encoding'
+    K = 0x0102030405060708
+    BE = [(K >> (8 * (7 - k))) & 0xFF for k in range(8)]
+
+    def optimised(src, fn, struct):
+        U = oblig.funit(src)
+        L = irf.Layouts(U.unit)
+        off = L.field(struct, 'seq')[0]
+        fl = U.field_loads(fn, 0, off)
+        if not fl:
+            raise AnalysisBroken('%s: no load of %s.seq' % (fn, struct))
+        hy = [dict(kind='pin', n=x['n'], value=K) for x in fl]
+        return U.optimise(fn, hy, ()), U.func(fn)
+
+    def byte_stores(F, base_pred):
+        """{byte offset: constant | ('xor', constant)} for stores whose address is base (selected by base_pred) + constant"""
+        out = {}
+        for i in F.insts.values():
+            if i['op'] != 'store':
+                continue
+            b, o = F.addr_of(i['ops'][1])
+            if o is None or not base_pred(F, b):
+                continue
+            v = i['ops'][0]
+            sz = i.get('size', 1)
+            if v['k'] == 'c' and v['v'] is not None:
+                val = v['v'] & ((1 << (8 * sz)) - 1)
+                for k in range(sz):
+                    out[o + k] = (val >> (8 * k)) & 0xFF          # little-endian host
+            elif v['k'] == 'i' and F.insts[v['v']]['op'] == 'xor' and sz == 1:
+                x = F.insts[v['v']]
+                c = [q for q in x['ops'] if q['k'] == 'c']
+                if c:
+                    out[o] = ('xor', c[0]['v'] & 0xFF)
+            elif v['k'] == 'i' and F.insts[v['v']]['op'] == 'call' and (F.insts[v['v']].get('callee') or '').startswith('llvm.bswap') and sz == 8:
+                a = F.insts[v['v']]['ops'][0]
+                if a['k'] == 'c':
+                    for k in range(8):
+                        out[o + k] = (a['v'] >> (8 * (7 - k))) & 0xFF
+        return out
+
+    def alloca_named(F0, var):
+        ids = [d['v'] for d in F0.f.get('declares', []) if d['var'] == var]
+        return ids
+
+    def local(var_size):
+        return lambda F, b: b['k'] == 'i' and F.insts[b['v']]['op'] == 'alloca' and F.insts[b['v']].get('size') == var_size
+
+    def param(n):
+        return lambda F, b: b == {'k': 'a', 'v': n}
+    cases = [
+        # (source, function, context struct, description, base selector, {offset: expected}, what)
+        ('src/ssl/ssl_rec_chapol.c', 'gen_chapol_process', 'br_sslrec_chapol_context', 'AAD header bytes 0..7', local(13), {k: BE[k] for k in range(8)}),
+        ('src/ssl/ssl_rec_chapol.c', 'gen_chapol_process', 'br_sslrec_chapol_context', 'nonce = IV xor (0^32 || seq), RFC 7905', local(12),
+         {4 + k: ('xor', BE[k]) for k in range(8)}),
+        ('src/ssl/ssl_rec_gcm.c', 'do_tag', 'br_sslrec_gcm_context', 'AAD header bytes 0..7', local(13), {k: BE[k] for k in range(8)}),
+        ('src/ssl/ssl_rec_gcm.c', 'gcm_encrypt', 'br_sslrec_gcm_context', 'explicit nonce (8 bytes before the ciphertext) = seq', param(3), {k - 8: BE[k] for k in range(8)}),
+        ('src/ssl/ssl_rec_ccm.c', 'ccm_decrypt', 'br_sslrec_ccm_context', 'AAD header bytes 0..7', local(13), {k: BE[k] for k in range(8)}),
+        ('src/ssl/ssl_rec_ccm.c', 'ccm_encrypt', 'br_sslrec_ccm_context', 'AAD header bytes 0..7', local(13), {k: BE[k] for k in range(8)}),
+        ('src/ssl/ssl_rec_ccm.c', 'ccm_encrypt', 'br_sslrec_ccm_context', 'nonce = salt || seq', local(12), {4 + k: BE[k] for k in range(8)}),
+        ('src/ssl/ssl_rec_cbc.c', 'cbc_decrypt', 'br_sslrec_in_cbc_context', 'MAC input bytes 0..7', local(64), {k: BE[k] for k in range(8)}),
+        ('src/ssl/ssl_rec_cbc.c', 'cbc_encrypt', 'br_sslrec_out_cbc_context', 'MAC input bytes 0..7', local(13), {k: BE[k] for k in range(8)}),
+    ]
+    n = 0
+    for src, fn, st, what, sel, want in cases:
+        Fo, F0 = optimised(src, fn, st)
+        got = byte_stores(Fo, sel)
+        inst = '%s: %s' % (fn, what)
+        n += 1
+        miss = {o: (got.get(o), w) for o, w in want.items() if got.get(o) != w}
+        if not miss:
+            chk.ok(R, inst, src, 'seq pinned to 0x%016X: %d byte positions match' % (K, len(want)))
+        else:
+            chk.violation(R, inst, src, 'with seq = 0x%016X the bytes at offsets %s are %s, expected %s: part of the sequence number does not reach the %s'
+                          % (K, sorted(miss), [miss[o][0] for o in sorted(miss)], [miss[o][1] for o in sorted(miss)],
+                             'nonce' if 'nonce' in what else 'authenticated data'), key='%s %s %s' % (R, fn, what.split(' ')[0]))
+    chk.floor('sequence-number encodings', n, 9)
+
+
 def seeder_rules(chk):
     """every system seeder compiled in this configuration returns 0 when its source fails and updates the DRBG before returning 1"""
     s = 'src/rand/sysrng.c'
@@ -255,4 +340,5 @@ def run(tier):
     seeder_rules(chk)
     seed_all_bytes(chk)
     seq_rules(chk)
+    seq_encoding(chk)
     return chk.finish()
